@@ -12,15 +12,41 @@ pub struct PanicInfo {
     pub msg: String,
 }
 
+/// Directory of the library under test, as the harness's manifest names it (`uflow = { path = "..." }`): rustc
+/// reports panic locations of a path dependency with that prefix, and those of the harness itself relative to the
+/// harness crate ("src/...").
+pub fn library_root() -> &'static str {
+    static ROOT: std::sync::OnceLock<String> = std::sync::OnceLock::new();
+    ROOT.get_or_init(|| {
+        let manifest = include_str!("../Cargo.toml");
+        for line in manifest.lines() {
+            let l = line.trim();
+            if l.starts_with("uflow") && l.contains("path") {
+                if let Some(i) = l.find("path") {
+                    let rest = &l[i..];
+                    if let Some(a) = rest.find('"') {
+                        if let Some(b) = rest[a + 1..].find('"') {
+                            return rest[a + 1..a + 1 + b].trim_end_matches('/').to_string();
+                        }
+                    }
+                }
+            }
+        }
+        String::from("/repo")
+    })
+}
+
 impl PanicInfo {
     pub fn in_library(&self) -> bool {
-        self.file.starts_with("/repo/") || self.file.contains("/uflow/src/") || self.file.starts_with("src/")
+        let root = library_root();
+        self.file.starts_with(&format!("{root}/"))
     }
 
     /// Stable signature: file (relative to the repository) plus message with numbers removed.
     /// Line numbers are left out because hook and fix commits shift them.
     pub fn signature(&self) -> String {
-        let file = self.file.trim_start_matches("/repo/");
+        let root = format!("{}/", library_root());
+        let file = self.file.strip_prefix(root.as_str()).unwrap_or(self.file.as_str());
         let mut msg = String::new();
         let mut last_digit = false;
         for ch in self.msg.chars() {
